@@ -737,10 +737,10 @@ fn selected(tier: Tier) -> Vec<Prog> {
 
 fn selected_all(tier: Tier) -> Vec<Prog> {
     let mut v = vec![];
-    // full alphabet up to 2 / 4 acts, the core alphabet one act longer in the quick tier
+    // full alphabet up to 2 / 3 acts, the core alphabet one act longer
     let max = tier.pick(3, 4);
     for t in 0..=max {
-        for p in programs(t, tier == Tier::Quick && t == 3) {
+        for p in programs(t, t == max) {
             if t <= 2 {
                 let mut q = p.clone();
                 q.start_x = Some(4);
@@ -752,7 +752,7 @@ fn selected_all(tier: Tier) -> Vec<Prog> {
     // writers in one branch, readers in the sibling that needs it
     for a in 1..=2usize {
         for b in 0..=tier.pick(1usize, 2) {
-            if tier == Tier::Quick && a + b > 2 {
+            if a + b > tier.pick(2, 3) {
                 continue;
             }
             for s1 in seqs(&alphabet(true), a) {
